@@ -670,7 +670,7 @@ class Engine:
                 val = Iface(((True, '*errors.errorString', Ptr(((True, sobj, ()),))),))
             elif name in self.globalinit:
                 val = Opaque(('regexp', self.globalinit[name]['regexp']))
-            elif '.v' in name.rsplit('/', 1)[-1] or '/internal/verif' in name:   # harness globals: zero initialised
+            elif (self.globals_decl.get(name) or {}).get('harness') or '/internal/verif' in name:   # harness globals: zero initialised
                 val = self.zero(elem)
             elif k == 'interface':
                 val = Opaque(('global', name))
